@@ -18,7 +18,6 @@ pub enum Error {
 // `crate::Result<T>` of src/error.rs; renamed by rule R-PATH because a crate-root alias named `Result`
 // would shadow std's `Result` in the single-file unit.
 pub type FjResult<T> = Result<T, Error>;
-pub type IoResult<T> = Result<T, IoError>;
 #[derive(Clone, Copy, PartialEq, Eq)]
 pub enum FormatVersionShim { V1, V2, V3 }
 impl vstd::std_specs::convert::FromSpecImpl<IoError> for Error {
